@@ -434,6 +434,45 @@ pub fn run_miri(prop: &str, ctx: &Ctx, from: u64, to: u64, shards: u64, merged: 
     }
 }
 
+/// The in-process thread context of a check under ThreadSanitizer (binary built by ./check with -Zbuild-std)
+pub fn run_tsan(prop: &str, ctx: &Ctx, merged: &mut Stats) {
+    let bin = "/verif/harness/target-tsan/x86_64-unknown-linux-gnu/release/nlv";
+    if !std::path::Path::new(bin).exists() {
+        merged.count("tsan:binary-missing");
+        return;
+    }
+    // the Miri-sized family layout keeps the batch small; TSan is ~10x
+    let out = Command::new(bin)
+        .args(["inproc", prop, ctx.tier.name(), &ctx.seed.to_string(), "0", "3"])
+        .env("NLV_FLAVOUR", "miri")
+        .env("TSAN_OPTIONS", "halt_on_error=1:exitcode=66")
+        .env("NLV_THREADS", "16")
+        .stdin(Stdio::null())
+        .output();
+    match out {
+        Ok(o) => {
+            let err = String::from_utf8_lossy(&o.stderr).to_string();
+            let text = String::from_utf8_lossy(&o.stdout).to_string();
+            merged.count("tsan:runs");
+            if let Some(l) = text.lines().find(|l| l.starts_with("inproc ")) {
+                let ev: u64 = l.split("evaluations=").nth(1).and_then(|x| x.split_whitespace().next()).and_then(|x| x.parse().ok()).unwrap_or(0);
+                merged.add("tsan:evaluations", ev);
+                merged.evaluations += ev;
+            }
+            for l in text.lines().filter(|l| l.starts_with("INPROC-VIOLATION ")) {
+                merged.violation("tsan:outcome-differs", l.to_string(), "thread context under ThreadSanitizer");
+            }
+            if o.status.code() == Some(66) || err.contains("ThreadSanitizer: data race") {
+                let k = err.find("WARNING: ThreadSanitizer").unwrap_or(0);
+                merged.violation("tsan:data-race", crate::obs::clip(&err[k..], 2500), "thread context under ThreadSanitizer");
+            } else if !o.status.success() {
+                merged.inconclusive(format!("ThreadSanitizer run of {} ended with {:?}: {}", prop, o.status.code(), crate::obs::clip(&err, 400)));
+            }
+        }
+        Err(e) => merged.inconclusive(format!("could not run the ThreadSanitizer binary: {}", e)),
+    }
+}
+
 pub fn print_substats(stats: &Stats, prop: &str) {
     let f = format!("{}/distinct-sub-{}-{}.bin", scratch_dir(), std::process::id(), prop);
     println!("substats {}", stats.to_json(&f));
